@@ -1072,10 +1072,16 @@ class Interp:
             except Unsupported:
                 self.path.assumption(f"log-argument-not-evaluated {fr.func or '?'}: {ast.unparse(a)}")
         for v in vals:
-            try:
+            if isinstance(v, VUnion):
+                # only an alternative that is an object with an effectful __str__/__repr__ matters; do not fork on the others
+                def _eff(x):
+                    if not (isinstance(x, VRef) and self.hobj(x).kind == "inst" and self.hobj(x).cls is not None):
+                        return False
+                    k_ = self.hobj(x).cls
+                    return any(k_.find_method(m_)[1] is not None and not self.syntactically_pure(k_, m_, set()) for m_ in ("__str__", "__repr__"))
+                if not any(_eff(x) for _, x in v.alts):
+                    continue
                 v = self.resolve(v)
-            except Unsupported:
-                continue
             if not (isinstance(v, VRef) and self.hobj(v).kind == "inst" and self.hobj(v).cls is not None):
                 continue
             cls = self.hobj(v).cls
